@@ -106,12 +106,13 @@ func reachCases(thorough bool) (cases []clirig.ReachCase, fam map[string]int, bo
 			}
 		}
 		// F4: two CONCURRENT RefreshMetadata calls after a healthy NewClient (both pick the same first candidate; its
-		// failure is handled twice)
+		// failure is handled twice), followed by a single call under the same behaviours (what did the concurrent phase
+		// leave behind?)
 		for n := 2; n <= 3; n++ {
 			for known := 0; known <= 1; known++ {
 				for _, p := range perms(n) {
 					for _, w := range words(alpha, n+known) {
-						cases = append(cases, clirig.ReachCase{Seeds: p, Known: known, RM: rm, New: strings.Repeat("A", n), Refresh: []string{w}, Pick: picks(known)[0], Conc: 2})
+						cases = append(cases, clirig.ReachCase{Seeds: p, Known: known, RM: rm, New: strings.Repeat("A", n), Refresh: []string{w, w}, Pick: picks(known)[0], Conc: 2})
 						fam["refresh-concurrent"]++
 					}
 				}
